@@ -151,11 +151,13 @@ theorem modDirectCheck_good {s i p env e} (h : modDirectCheck s (some i) p env =
     · cases h; exact Or.inr ⟨rfl, rfl⟩
     · split at h
       · cases h; exact Or.inr ⟨rfl, rfl⟩
-      · simp only at h
-        split at h
+      · split at h
         · cases h; exact Or.inr ⟨rfl, rfl⟩
-        · cases h; exact Or.inl rfl
-        · cases h
+        · simp only at h
+          split at h
+          · cases h; exact Or.inr ⟨rfl, rfl⟩
+          · cases h; exact Or.inl rfl
+          · cases h
 
 theorem modDirectCheck_ok {s i p env j} (h : modDirectCheck s (some i) p env = .ok j) : j = i := by
   unfold modDirectCheck at h
@@ -165,11 +167,13 @@ theorem modDirectCheck_ok {s i p env j} (h : modDirectCheck s (some i) p env = .
     · cases h
     · split at h
       · cases h
-      · simp only at h
-        split at h
+      · split at h
         · cases h
-        · cases h
-        · cases h; rfl
+        · simp only at h
+          split at h
+          · cases h
+          · cases h
+          · cases h; rfl
 
 /-! ### the requests that carry an id -/
 
